@@ -475,6 +475,13 @@ func (sc *StorageCar) Finalize() error {
 	}
 
 	if sc.opts.WriteAsCarV1 {
+		// There is no CARv2 header or index to write, but the CAR is closed from here on.
+		sc.mu.Lock()
+		defer sc.mu.Unlock()
+		if sc.closed {
+			return fmt.Errorf("called Finalize on a closed storage CAR")
+		}
+		sc.closed = true
 		return nil
 	}
 
